@@ -4,6 +4,7 @@ use vstd::arithmetic::power::*;
 use vstd::arithmetic::power2::*;
 use vstd::arithmetic::div_mod::*;
 use core::cmp::Ordering;
+use core::ops::Deref;
 use crate::speclib::*;
 use crate::speclib_bits::*;
 use crate::l0_prim::*;
@@ -281,6 +282,8 @@ pub proof fn lemma_sign_mul(a: int, b: int)
         abs_i(a) * abs_i(b) * (if (a < 0) != (b < 0) { -1int } else { 1int }) == a * b,
         abs_i(a) * abs_i(a) == a * a
 {
+    let m = abs_i(a) * abs_i(b);
+    assert(m * (-1int) == -m && m * 1int == m) by (nonlinear_arith);
     assert((-a) * (-b) == a * b) by (nonlinear_arith);
     assert((-a) * b == -(a * b)) by (nonlinear_arith);
     assert(a * (-b) == -(a * b)) by (nonlinear_arith);
@@ -393,7 +396,11 @@ pub const fn MAX() -> (ret__: Self)
 //@-
 {
 //@+
-    proof { lemma_half(LIMBS as nat); lemma_pow2_64(); }
+    proof {
+        lemma_half(LIMBS as nat); lemma_pow2_64();
+        let w = bp(LIMBS as nat); let h = ih(LIMBS as nat); let d = p2(1);
+        assert((w - 1) / d == h - 1) by (nonlinear_arith) requires d == 2, w == 2 * h;
+    }
 //@-
     Self(Uint::MAX().shr(1u32))
 }
@@ -1069,7 +1076,7 @@ pub const fn split_mul<const RHS_LIMBS: usize>(
         rhs: &Int<RHS_LIMBS>,
     ) -> (ret__: (Uint<{ LIMBS }>, Uint<{ RHS_LIMBS }>, ConstChoice))
 //@+
-    requires LIMBS >= 1, RHS_LIMBS >= 1
+    requires LIMBS >= 1, RHS_LIMBS >= 1, LIMBS + RHS_LIMBS <= usize::MAX
     ensures ret__.2.wf(), ret__.2.t() == ((self.iv() < 0) != (rhs.iv() < 0)),
         ret__.0.v() + ret__.1.v() * bp(LIMBS as nat) == abs_i(self.iv()) * abs_i(rhs.iv()),
         (ret__.0.v() + ret__.1.v() * bp(LIMBS as nat)) * (if ret__.2.t() { -1int } else { 1int }) == self.iv() * rhs.iv()
@@ -1096,7 +1103,7 @@ pub const fn split_mul<const RHS_LIMBS: usize>(
 impl<const LIMBS: usize> Int<LIMBS> {
 pub fn checked_square(&self) -> (ret__: ConstCtOption<Uint<LIMBS>>)
 //@+
-    requires LIMBS >= 1
+    requires LIMBS >= 1, 2 * LIMBS <= usize::MAX
     ensures ret__.is_some.wf(), ret__.is_some.t() == (self.iv() * self.iv() < bp(LIMBS as nat)),
         ret__.value.v() == (self.iv() * self.iv()) % bp(LIMBS as nat),
         ret__.is_some.t() ==> ret__.value.v() == self.iv() * self.iv()
@@ -1113,7 +1120,7 @@ pub fn checked_square(&self) -> (ret__: ConstCtOption<Uint<LIMBS>>)
 impl<const LIMBS: usize> Int<LIMBS> {
 pub const fn wrapping_square(&self) -> (ret__: Uint<LIMBS>)
 //@+
-    requires LIMBS >= 1
+    requires LIMBS >= 1, 2 * LIMBS <= usize::MAX
     ensures ret__.v() == (self.iv() * self.iv()) % bp(LIMBS as nat)
 //@-
 {
@@ -1128,7 +1135,7 @@ pub const fn wrapping_square(&self) -> (ret__: Uint<LIMBS>)
 impl<const LIMBS: usize> Int<LIMBS> {
 pub const fn saturating_square(&self) -> (ret__: Uint<LIMBS>)
 //@+
-    requires LIMBS >= 1
+    requires LIMBS >= 1, 2 * LIMBS <= usize::MAX
     ensures ret__.v() == min_int(self.iv() * self.iv(), bp(LIMBS as nat) - 1)
 //@-
 {
@@ -1146,7 +1153,7 @@ pub const fn split_mul_uint<const RHS_LIMBS: usize>(
         rhs: &Uint<RHS_LIMBS>,
     ) -> (ret__: (Uint<{ LIMBS }>, Uint<{ RHS_LIMBS }>, ConstChoice))
 //@+
-    requires LIMBS >= 1, RHS_LIMBS >= 1
+    requires LIMBS >= 1, RHS_LIMBS >= 1, LIMBS + RHS_LIMBS <= usize::MAX
     ensures ret__.2.wf(), ret__.2.t() == (self.iv() < 0),
         ret__.0.v() + ret__.1.v() * bp(LIMBS as nat) == abs_i(self.iv()) * rhs.v(),
         (ret__.0.v() + ret__.1.v() * bp(LIMBS as nat)) * (if ret__.2.t() { -1int } else { 1int }) == self.iv() * rhs.v()
@@ -1171,7 +1178,7 @@ pub const fn split_mul_uint_right<const RHS_LIMBS: usize>(
         rhs: &Uint<RHS_LIMBS>,
     ) -> (ret__: (Uint<{ RHS_LIMBS }>, Uint<{ LIMBS }>, ConstChoice))
 //@+
-    requires LIMBS >= 1, RHS_LIMBS >= 1
+    requires LIMBS >= 1, RHS_LIMBS >= 1, LIMBS + RHS_LIMBS <= usize::MAX
     ensures ret__.2.wf(), ret__.2.t() == (self.iv() < 0),
         ret__.0.v() + ret__.1.v() * bp(RHS_LIMBS as nat) == rhs.v() * abs_i(self.iv()),
         (ret__.0.v() + ret__.1.v() * bp(RHS_LIMBS as nat)) * (if ret__.2.t() { -1int } else { 1int }) == rhs.v() * self.iv()
@@ -1183,6 +1190,50 @@ pub const fn split_mul_uint_right<const RHS_LIMBS: usize>(
     proof { lemma_sign_mul(rhs.v(), self.iv()); lemma_val_bound(rhs.limbs@, RHS_LIMBS as nat); }
 //@-
         (lo, hi, lhs_sgn)
+    }
+}
+//@@ end
+//@@ fn src/non_zero.rs | impl<const LIMBS: usize> NonZero<Uint<LIMBS>> | new_unwrap | body | props C12 C11
+impl<const LIMBS: usize> NonZero<Uint<LIMBS>> {
+pub const fn new_unwrap(n: Uint<LIMBS>) -> (ret__: Self)
+//@+
+    requires n.v() != 0
+    ensures ret__.0 == n
+//@-
+{
+        if n.is_nonzero().is_true_vartime() {
+            Self(n)
+        } else {
+            panic!("Invalid value: zero")
+        }
+    }
+}
+//@@ end
+//@@ fn src/non_zero.rs | impl<const LIMBS: usize> NonZero<Int<LIMBS>> | abs_sign | body | props C14 C13 C11
+impl<const LIMBS: usize> NonZero<Int<LIMBS>> {
+pub const fn abs_sign(&self) -> (ret__: (NonZero<Uint<LIMBS>>, ConstChoice))
+//@+
+    requires LIMBS >= 1, self.0.iv() != 0
+    ensures ret__.1.wf(), ret__.1.t() == (self.0.iv() < 0), ret__.0.0.v() == abs_i(self.0.iv()), 0 < ret__.0.0.v() <= ih(LIMBS as nat)
+//@-
+{
+        let (abs, sign) = self.0.abs_sign();
+        // Note: a NonZero<Int> always has a non-zero magnitude, so it is safe to unwrap.
+        (NonZero::<Uint<LIMBS>>::new_unwrap(abs), sign)
+    }
+}
+//@@ end
+//@@ fn src/non_zero.rs | impl<T> Deref for NonZero<T> | deref | body | props C12 C11
+impl<T> Deref for NonZero<T> {
+//@+
+    type Target = T;
+//@-
+fn deref(&self) -> (ret__: &T)
+//@+
+    ensures *ret__ == self.0
+//@-
+{
+        &self.0
     }
 }
 //@@ end
